@@ -88,6 +88,78 @@ Theorem c11_unreal2_query_structure : forall port g t,
 Proof. reflexivity. Qed.
 Print Assumptions c11_unreal2_query_structure.
 
+(* ---- Unreal 2, section by section: what is left of the query once the info reply is decoded ---- *)
+From GD Require Import Proofs.GatherUnreal2.
+Theorem c11_unreal2_sections_mean : forall port g t,
+  u2_query port (Some g) t
+  = (do* _ := udp_new port t in do* info := query_server_info port (ts_retries_or_default t) in u2_sections port g t info)
+  /\ (forall info, u2_sections port g t info
+       = (do* mr := maybe_gather (ug_mr g) (query_mr port (ts_retries_or_default t)) in
+          u2_players_phase port g t info (match mr with Some x => x | None => mk_u2mr [] [] end)))
+  /\ (forall info mr, u2_players_phase port g t info mr
+       = (do* players := maybe_gather (ug_players g) (query_players port (ts_retries_or_default t) (ui_num_players (u2_info_with info mr))) in
+          mret (mk_u2resp (u2_info_with info mr) mr (match players with Some p => p | None => mk_u2ps [] [] end))))
+  /\ (forall info, u2_info_with info (mk_u2mr [] []) = info).
+Proof. intros port g t. repeat split. Qed.
+Print Assumptions c11_unreal2_sections_mean.
+(* Skip: never requested, absent; both skipped: the state is the one the info phase left *)
+Theorem c11_unreal2_skip : forall port g t info n,
+  (ug_mr g = Skip -> u2_sections port g t info n = u2_players_phase port g t info (mk_u2mr [] []) n)
+  /\ (forall mr, ug_players g = Skip -> u2_players_phase port g t info mr n = (Ok (mk_u2resp (u2_info_with info mr) mr (mk_u2ps [] [])), n))
+  /\ (ug_mr g = Skip -> ug_players g = Skip -> u2_sections port g t info n = (Ok (mk_u2resp info (mk_u2mr [] []) (mk_u2ps [] [])), n)).
+Proof.
+  intros port g t info n. split; [exact (u2_mr_skip port g t info n)|]. split; [intros mr; exact (u2_players_skip port g t info mr n)|exact (u2_both_skipped port g t info n)].
+Qed.
+Print Assumptions c11_unreal2_skip.
+(* Try: a rules section that fails in any way - silent, malformed from the start or after well-formed pairs - leaves
+   nothing behind: the query goes on exactly as if the section had been skipped, from the state the failure left (the
+   password flag of the info reply included); a failing players section gives the response without players *)
+Theorem c11_unreal2_try : forall port g t info n x n',
+  (ug_mr g = Try -> query_mr port (ts_retries_or_default t) n = (Err x, n') ->
+   u2_sections port g t info n = u2_players_phase port g t info (mk_u2mr [] []) n')
+  /\ (forall mr, ug_players g = Try ->
+      query_players port (ts_retries_or_default t) (ui_num_players (u2_info_with info mr)) n = (Err x, n') ->
+      u2_players_phase port g t info mr n = (Ok (mk_u2resp (u2_info_with info mr) mr (mk_u2ps [] [])), n')).
+Proof. intros port g t info n x n'. split; [exact (u2_mr_try_err port g t info n x n')|intros mr; exact (u2_players_try_err port g t info mr n x n')]. Qed.
+Print Assumptions c11_unreal2_try.
+(* Enforce: the section's failure is the query's failure *)
+Theorem c11_unreal2_enforce : forall port g t info n x n',
+  (ug_mr g = Enforce -> query_mr port (ts_retries_or_default t) n = (Err x, n') -> u2_sections port g t info n = (Err x, n'))
+  /\ (forall mr, ug_players g = Enforce ->
+      query_players port (ts_retries_or_default t) (ui_num_players (u2_info_with info mr)) n = (Err x, n') ->
+      u2_players_phase port g t info mr n = (Err x, n')).
+Proof. intros port g t info n x n'. split; [exact (u2_mr_enforce_err port g t info n x n')|intros mr; exact (u2_players_enforce_err port g t info mr n x n')]. Qed.
+Print Assumptions c11_unreal2_enforce.
+(* a section that succeeds is kept, under Try and under Enforce alike *)
+Theorem c11_unreal2_kept : forall port g t info n n',
+  (forall mr, ug_mr g <> Skip -> query_mr port (ts_retries_or_default t) n = (Ok mr, n') ->
+   u2_sections port g t info n = u2_players_phase port g t info mr n')
+  /\ (forall mr ps, ug_players g <> Skip ->
+      query_players port (ts_retries_or_default t) (ui_num_players (u2_info_with info mr)) n = (Ok ps, n') ->
+      u2_players_phase port g t info mr n = (Ok (mk_u2resp (u2_info_with info mr) mr ps), n')).
+Proof. intros port g t info n n'. split; [intros mr; exact (u2_mr_ok port g t info n mr n')|intros mr ps; exact (u2_players_ok port g t info mr n ps n')]. Qed.
+Print Assumptions c11_unreal2_kept.
+
+(* ---- the Valve app-id decision, for every engine, setting and app id ---- *)
+Theorem c11_appid_decision : forall g a,
+  (g_check_app_id g = false -> forall e, appid_ok e g a = true)
+  /\ (forall f, appid_ok (Source None) g a = true /\ appid_ok (GoldSrc f) g a = true)
+  /\ (g_check_app_id g = true -> forall m d, appid_ok (Source (Some (m, d))) g a = true <-> (a = m \/ d = Some a)).
+Proof.
+  intros g a. split; [intros H e; exact (appid_check_off e g a H)|]. split; [intros f; exact (appid_no_expectation g a f)|intros H m d; exact (appid_check_on m d g a H)].
+Qed.
+Print Assumptions c11_appid_decision.
+Theorem c11_valve_wrong_appid : forall bz port e g t n info n1,
+  info_phase bz port e t n = (Ok info, n1) -> appid_ok e g (si_appid info) = false ->
+  Valve.query bz port e (Some g) t n = (Err BadGame, n1).
+Proof. exact wrong_appid_is_badgame. Qed.
+Print Assumptions c11_valve_wrong_appid.
+Theorem c11_valve_right_appid : forall bz port e g t n info n1,
+  info_phase bz port e t n = (Ok info, n1) -> appid_ok e g (si_appid info) = true ->
+  Valve.query bz port e (Some g) t n = sections bz port e g t info n1.
+Proof. exact right_appid_goes_on. Qed.
+Print Assumptions c11_valve_right_appid.
+
 (* the app-id relation: main id, dedicated id, other id, no expectation *)
 Example c11_ex_appid :
   appid_ok (Source (Some (440, Some 441))) (mk_gather Try Try true) 440 = true /\
